@@ -147,9 +147,11 @@ UNITS += [
     Unit(name="get_id", file=B, anchor="fn get_id(&self, blob_type: BlobType, id: &BlobId) -> Option<IndexEntry>", within="impl ReadIndex for Index {", ret_name="r",
          wrap_open="impl Index {", wrap_close="}",
          functions=["<index::binarysorted::Index as ReadIndex>::get_id"],
-         rewrites=[Rw(r"vec\.binary_search_by_key\(id, \|e\| e\.id\)\.ok\(\)\.map\(\|index\| \{(?P<body>.*)\}\)",
+         rewrites=[Rw(r"vec\.binary_search_by_key\(id, \|e\| e\.id\)", "vsearch_entries(vec, id)", regex=True, count=None,
+                      why="slice::binary_search_by_key with the key closure |e| e.id (assumed std contract incl. REQUIRES sorted)"),
+                   Rw(r"vsearch_entries\(vec, id\)\.ok\(\)\.map\(\|index\| \{(?P<body>.*)\}\)",
                       r"match vsearch_entries(vec, id).ok() { Some(index) => Some({\g<body>}), None => None }", regex=True,
-                      why="slice::binary_search_by_key (assumed std contract incl. REQUIRES sorted); Option::map with a closure literal replaced by its definition (match), body verbatim")],
+                      why="Option::map with a closure literal replaced by its definition (match), body verbatim")],
          contract="""
     requires
         self.wf(),
